@@ -340,6 +340,8 @@ PROPS["C12"] = dict(
         Job("cache_seq", engine="cache_seq", workers=(4, 4), cases=(250, 25000), time_s=(40, 700), **FULL),
         Job("cache_fault", engine="cache_fault", workers=(4, 4), cases=(340, 34000), time_s=(40, 700), **FULL),
         Job("cache_conc", engine="cache_conc", workers=(8, 8), cases=(150, 15000), time_s=(40, 700), **FULL),
+        # every interleaving (at hook-point granularity) of small scenarios, among them: get of a damaged, not yet verified entry vs put of a covered sub-range
+        Job("cache_enum", engine="cache_enum", workers=(8, 16), cases=(4, 30), time_s=(60, 800), args={"max-schedules": (4000, 60000), "p3": (0, 3)}, **FULL),
         Job("asan-cache_fault", engine="cache_fault", workers=(4, 4), cases=(1700, 1700), time_s=(300, 300), **ASAN_FULL),
         Job("asan-cache_seq", engine="cache_seq", workers=(4, 4), cases=(600, 600), time_s=(300, 300), **ASAN_FULL),
     ],
